@@ -119,6 +119,12 @@ if on('c25l'):   # dup then dep: the interface declaration shared by the routine
         s.process(DependencyTransformation(suffix='_x'))
         return show(s)
     attempt('c25l', f)
+if on('c25m'):   # wrap: the interface of a routine that is NOT wrapped (its file also holds a driver) is replaced by a USE
+    s, _ = sched({'du.f90': sub('d', ['u'], ifaces=['u']) + sub('u')}, ['d'], ['d'])
+    def f():
+        s.process(ModuleWrapTransformation(module_suffix='_mod'))
+        return [(i.name, type(i).__name__) for i in s.items]
+    attempt('c25m', f)
 if on('c24a'):   # plan vs convert: dep before a name-valued rm
     res = {}
     for strategy in (ProcessingStrategy.PLAN, ProcessingStrategy.DEFAULT):
